@@ -173,6 +173,44 @@ fn search(unit: &str, depth: usize) -> Value {
                 }
             }
         }
+        // RLE / dictionary i32 blocks: every value pattern over {7, 8} (runs of every length), every skip, batches 1..3
+        "rle" | "dict" => {
+            let n = depth + 5;
+            for mask in 0u32..(1 << n) {
+                let items: Vec<i32> = (0..n).map(|i| if mask & (1 << i) != 0 { 7 } else { 8 }).collect();
+                for skip in 0..=n {
+                    for batch in 1..=3 {
+                        tried += 1;
+                        let got = if unit == "rle" { h::rle_block_read(&items, skip, batch) } else { h::dict_block_read(&items, skip, batch) };
+                        let want: Vec<Option<i32>> = items[skip..].iter().map(|x| Some(*x)).collect();
+                        match got {
+                            Ok(out) if out == want => {}
+                            other => return json!({"found": true, "tried": tried, "input": {"items": items, "skip": skip, "batch": batch}, "observed": format!("{other:?}")}),
+                        }
+                    }
+                }
+            }
+        }
+        // varchar blocks: strings of length 0..2 in every combination, every skip, batches 1..3
+        "blob" => {
+            let alphabet = ["", "a", "bc"];
+            let n = depth + 3;
+            let total = (alphabet.len() as u32).pow(n as u32);
+            for code in 0..total {
+                let mut c = code;
+                let items: Vec<String> = (0..n).map(|_| { let s = alphabet[(c % 3) as usize].to_string(); c /= 3; s }).collect();
+                for skip in 0..=n {
+                    for batch in 1..=3 {
+                        tried += 1;
+                        let want: Vec<Option<String>> = items[skip..].iter().map(|x| Some(x.clone())).collect();
+                        match h::blob_block_read(&items, skip, batch) {
+                            Ok(out) if out == want => {}
+                            other => return json!({"found": true, "tried": tried, "input": {"items": items, "skip": skip, "batch": batch}, "observed": format!("{other:?}")}),
+                        }
+                    }
+                }
+            }
+        }
         "varint" => {
             for v in (0u32..300).chain([0x3FFF, 0x4000, 0x1F_FFFF, 0x20_0000, 0xFFF_FFFF, 0x1000_0000, 0xEFFF_FFFF, 0xF000_0000, u32::MAX]) {
                 tried += 1;
